@@ -112,14 +112,14 @@ Proof.
       rewrite !(bal_setbal c Hst), !bal_touch; reflexivity.
 Qed.
 
-Lemma body_refines e t n s0 s1 res : log s0 = [] ->
-  tx_body c s0 (to_tx e t n) = (s1, res) ->
+Lemma body_refines e idx t n s0 s1 res : log s0 = [] ->
+  tx_body c idx s0 (to_tx e t n) = (s1, res) ->
   let '(b1, ok, gas, g) := ntx_body (x_fees c) e (bal s0) t in
   is_ok res = ok /\ gas_of (to_tx e t n) = gas /\ beq (bal s1) b1 /\
   (forall a, rbal s1 a = bal s0 a) /\ (ok = false -> log s1 = []).
 Proof.
   intros Hl0 Hb.
-  destruct (tx_body_rrel c Hst Hpm Htb (to_tx e t n) s0 s1 res Hb) as [[Hrb _] Hlog].
+  destruct (tx_body_rrel c Hst Hpm Htb idx (to_tx e t n) s0 s1 res Hb) as [[Hrb _] Hlog].
   assert (Hr : forall a, rbal s1 a = bal s0 a) by (intro a; rewrite Hrb; apply r_nolog_bal; exact Hl0).
   assert (Hfail : is_ok res = false -> log s1 = [] /\ beq (bal s1) (bal s0)).
   { intro Hf. assert (L : log s1 = []) by (apply Hlog; [exact Hf | right; left; destruct t; reflexivity | exact Hl0]).
@@ -187,8 +187,8 @@ Theorem native_tx_refines e idx s t n :
   beq (bal s') b' /\ r_ok rc = ok.
 Proof.
   unfold apply_tx.
-  destruct (tx_body c (clear_frame s) (to_tx e t n)) as [s1 res] eqn:Eb.
-  pose proof (body_refines e t n (clear_frame s) s1 res eq_refl Eb) as Hbody.
+  destruct (tx_body c idx (clear_frame s) (to_tx e t n)) as [s1 res] eqn:Eb.
+  pose proof (body_refines e idx t n (clear_frame s) s1 res eq_refl Eb) as Hbody.
   unfold apply_ntx. cbn [bal clear_frame] in Hbody.
   destruct (ntx_body (x_fees c) e (bal s) t) as [[[b1 ok] gas] g].
   destruct Hbody as [Hok [Hgas [Hb1 [Hr Hlog]]]].
@@ -265,4 +265,25 @@ Proof.
   split.
   - unfold conserve in *. rewrite (sumb_ext dom (bal s') b'); [exact Hc | intros a _; apply H1].
   - rewrite <- Hl, <- H2. symmetry. apply map_length.
+Qed.
+
+(** ... and the books of a block of the executable model are exact up to the rounding loss *)
+Corollary exec_block_loss_bound c e dom ts ns s pre :
+  d_stale_changer c = false -> d_prev_from_memory c = false -> d_revert_drops_tombstone c = false ->
+  x_fees c = fcfg_fixed ->
+  admins e <> [] -> NoDup dom -> covers dom e ts ->
+  let '(s', rcs, _) := exec_block c e s pre (to_txs e ts ns) in
+  let '(_, _, g) := apply_block fcfg_fixed e (bal s) ts in
+  loss_bound dom (bal s) (bal s') g (length (admins e)) (length ts).
+Proof.
+  intros Hst Hpm Htb Hf Ha Hnd Hcov. unfold exec_block.
+  pose proof (native_block_refines c Hst Hpm Htb e ts ns 0%N (new_block s pre) (bal s)) as H.
+  assert (Hb : beq (bal (new_block s pre)) (bal s))
+    by (intro a; unfold new_block; rewrite bal_fold_touch; reflexivity).
+  specialize (H Hb). rewrite Hf in H.
+  destruct (apply_txs c e 0%N (new_block s pre) (to_txs e ts ns)) as [[s' rcs] cn].
+  destruct (apply_block fcfg_fixed e (bal s) ts) as [[b' oks] g] eqn:Eb.
+  destruct H as [H1 H2].
+  pose proof (block_loss_bound dom e Ha Hnd ts (bal s) b' oks g Hcov Eb) as Hc.
+  unfold loss_bound in *. rewrite (sumb_ext dom (bal s') b'); [exact Hc | intros a _; apply H1].
 Qed.
